@@ -17,7 +17,8 @@ type ComplexV complex128
 // StringV is an immutable string: a vector of symbolic bytes of concrete length, or an opaque token.
 type StringV struct {
 	B      []*Term
-	Opaque *Term // non-nil: an opaque string identified by this Int-sorted id term (contents unknown)
+	Opaque *Term   // non-nil: an opaque string identified by this id term (contents unknown)
+	HexOf  []*Term // non-nil: B is the lower-case hex encoding of these bytes (equality fast path)
 }
 
 type StructV []Value
